@@ -82,7 +82,10 @@ def stimuli(tier, seed, ctx):
                     'late_fail': rnd.randint(1, n) if rnd.random() < 0.2 else 0,
                     # an event that reaches a block while the blocks are being stopped (sent by the
                     # stop_data of an output block), i.e. after the simulator's own final save
-                    'stop_event': rnd.randint(1, n) if rnd.random() < 0.25 else 0})
+                    'stop_event': rnd.randint(1, n) if rnd.random() < 0.25 else 0,
+                    # a regular stop while the circuit is still initialising (a slow asynchronous
+                    # routine is pending), after events to the blocks restored from the storage
+                    'init_stop': rnd.random() < 0.12})
     return out
 
 
@@ -228,7 +231,14 @@ def execute(stim):
             if stim['fail_start']:
                 FailStart('zz_failing')
             edzed.Not('keepalive').connect(blks[0])
-            se = stim.get('stop_event') or 0
+            init_stop = bool(stim.get('init_stop') and stim.get('preseed') and not stim.get('early_abort')
+                             and not stim['fail_start'])
+            if init_stop:
+                async def slow_init():
+                    await asyncio.sleep(6 * TICK)
+                    return 1
+                edzed.InitAsync('zz_slow', init_coro=[slow_init], init_timeout=20 * TICK, initdef=0)
+            se = 0 if init_stop else (stim.get('stop_event') or 0)
             # (not after a failed start: "after every handled event the storage holds the state" and
             # "nothing is written if the start-up failed" contradict each other there)
             if se and kinds[se - 1] in ('counter', 'input', 'gauge') and not stim.get('early_abort') \
@@ -278,6 +288,32 @@ def execute(stim):
                 if stim.get('early_abort'):
                     await asyncio.sleep(0)
                     circuit.abort(RuntimeError('early abort'))
+                if init_stop:
+                    await asyncio.sleep(TICK)
+                    for blk, kind, c in zip(blks, kinds, conf):
+                        if c['persistent'] and kind in ('counter', 'input', 'gauge') and blk.is_initialized():
+                            try:
+                                edzed.ExtEvent(blk, 'put').send(2)
+                            except Exception:
+                                pass
+                    await asyncio.sleep(TICK)
+                    flag['driver'] = False
+                    before = live()
+                    try:
+                        await circuit.shutdown()
+                    except BaseException:
+                        pass
+                    try:
+                        await task
+                    except BaseException:
+                        pass
+                    ts = storage.get('edzed-stop-time')
+                    lines.append({'ev': 'stop', 't': wtick(clock), 'kind': 'init_stop',
+                                  'store': _store(storage, blks, kinds, WALL0),
+                                  'ts': NONE if ts is None else round((ts - WALL0) / TICK), 'live': before,
+                                  'sev': 0, 'after': live()})
+                    snaps.append((copy.deepcopy(storage), wtick(clock), outs()))
+                    return
                 try:
                     await circuit.wait_init()
                     ok = True
